@@ -24,6 +24,15 @@ every request of the sequence is compared with the reference-level model `execut
 deep-snapshotted before and after EVERY call and compared both with the model's heap (correspondence) and
 with the snapshot taken before the first call (oracle: `execute` leaves what it is given untouched, and each
 request is judged against the call the caller wrote, whatever earlier calls did).
+
+The `variables` argument is a GRAPH of objects: call specs and sequences carry a pool of SHARED list/dict objects
+(`"shared"`: one nested container referenced from several places of one variables dict, from several variables dicts,
+from a model's Any-typed field) and several distinct Upload objects with identical attributes (same name/type and the
+same or different bytes).  Every sequence is also run through the object-level model `executeO`/`runSeqO`
+(Model/BaseClientObjects.lean): the real list/dict objects are encoded by identity (address = first visit), and after
+EVERY real call re-encoded with the same addresses and compared with the store the model returns; the `files=` triples
+of the model (the Upload object's own filename / content / content_type) are compared with the real file parts.  What
+`==` / `in` / `.index` answer on real Upload objects is compared with the model's `uploadEq`.
 """
 from __future__ import annotations
 
@@ -129,9 +138,11 @@ CT_VALUES = ["application/json", "application/graphql-response+json", "text/plai
 # --------------------------------------------------------------------------------------------
 
 
-def build_value(spec: Dict[str, Any], uploads: List[Any]) -> Any:
+def build_value(spec: Dict[str, Any], uploads: List[Any], shared: Optional[List[Any]] = None) -> Any:
     m = models()
     k = spec["k"]
+    if k == "shared":
+        return (shared or [])[spec["i"]]   # THE object of the pool, not a copy
     if k == "none":
         return None
     if k == "unset":
@@ -153,26 +164,47 @@ def build_value(spec: Dict[str, Any], uploads: List[Any]) -> Any:
     if k == "upload":
         return uploads[spec["u"]]
     if k == "list":
-        return [build_value(s, uploads) for s in spec["v"]]
+        return [build_value(s, uploads, shared) for s in spec["v"]]
     if k == "dict":
-        return {key: build_value(s, uploads) for key, s in spec["v"]}
+        return {key: build_value(s, uploads, shared) for key, s in spec["v"]}
     if k == "model":
         cls = m[spec["cls"]]
-        return cls(**{name: build_value(s, uploads) for name, s in spec["fields"]})
+        return cls(**{name: build_value(s, uploads, shared) for name, s in spec["fields"]})
     raise ValueError(k)
+
+
+def build_shared(specs: List[Dict[str, Any]], uploads: List[Any]) -> List[Any]:
+    """the pool of shared container objects: entry i may reference entries < i (acyclic)"""
+    pool: List[Any] = []
+    for sp in specs:
+        pool.append(build_value(sp, uploads, pool))
+    return pool
+
+
+def build_uploads(specs: List[Dict[str, Any]]) -> List[Any]:
+    """one Upload object per entry; an entry with "stream_of": j wraps THE file object of upload j (another name for the same stream)"""
+    Upload = models()["Upload"]
+    out: List[Any] = []
+    for u in specs:
+        j = u.get("stream_of")
+        content = out[j].content if j is not None else io.BytesIO(base64.b64decode(u["content_b64"]))
+        out.append(Upload(filename=u["filename"], content=content, content_type=u["content_type"]))
+    return out
+
+
+def stream_ids(specs: List[Dict[str, Any]]) -> List[int]:
+    return [u["stream_of"] if u.get("stream_of") is not None else i for i, u in enumerate(specs)]
 
 
 class Built:
     def __init__(self, spec: Dict[str, Any]):
         m = models()
         self.spec = spec
-        self.uploads = [
-            m["Upload"](filename=u["filename"], content=io.BytesIO(base64.b64decode(u["content_b64"])), content_type=u["content_type"])
-            for u in spec.get("uploads", [])
-        ]
+        self.uploads = build_uploads(spec.get("uploads", []))
         self.upload_ids = {id(u): i for i, u in enumerate(self.uploads)}
+        self.shared = build_shared(spec.get("shared", []), self.uploads)
         v = spec["variables"]
-        self.variables: Optional[Dict[str, Any]] = None if v is None else {key: build_value(s, self.uploads) for key, s in v}
+        self.variables: Optional[Dict[str, Any]] = None if v is None else {key: build_value(s, self.uploads, self.shared) for key, s in v}
         self.kwargs: Dict[str, Any] = {}
         if spec.get("headers") is not None:
             self.kwargs["headers"] = {k: val for k, val in spec["headers"]}
@@ -188,7 +220,7 @@ def step_call_spec(seq: Dict[str, Any], k: int) -> Dict[str, Any]:
     return {"query": st["query"], "opName": st["opName"],
             "variables": None if st["variables"] is None else seq["var_objs"][st["variables"]],
             "headers": None if st["headers"] is None else seq["hdr_objs"][st["headers"]],
-            "kwargs": st.get("kwargs", []), "uploads": seq.get("uploads", [])}
+            "kwargs": st.get("kwargs", []), "uploads": seq.get("uploads", []), "shared": seq.get("shared", [])}
 
 
 class SeqBuilt:
@@ -197,13 +229,12 @@ class SeqBuilt:
     def __init__(self, spec: Dict[str, Any]):
         m = models()
         self.spec = spec
-        self.uploads = [
-            m["Upload"](filename=u["filename"], content=io.BytesIO(base64.b64decode(u["content_b64"])), content_type=u["content_type"])
-            for u in spec.get("uploads", [])
-        ]
+        self.uploads = build_uploads(spec.get("uploads", []))
         self.upload_ids = {id(u): i for i, u in enumerate(self.uploads)}
         self.hdr_objs: List[Dict[str, str]] = [{k: v for k, v in hs} for hs in spec["hdr_objs"]]
-        self.var_objs: List[Dict[str, Any]] = [{key: build_value(sv, self.uploads) for key, sv in vs} for vs in spec["var_objs"]]
+        self.shared = build_shared(spec.get("shared", []), self.uploads)
+        self.var_objs: List[Dict[str, Any]] = [{key: build_value(sv, self.uploads, self.shared) for key, sv in vs} for vs in spec["var_objs"]]
+        self.enc = ObjEncoder(self.var_objs, self.upload_ids)   # addresses fixed before any call
         self.kw_objs: Dict[str, Any] = {}  # one object per distinct (keyword, value): shared by the steps that pass it
         for stp in spec["steps"]:
             for key, val in stp.get("kwargs", []):
@@ -222,6 +253,7 @@ class SeqBuilt:
         b = Built.__new__(Built)
         b.spec = step_call_spec(self.spec, k)
         b.uploads, b.upload_ids = self.uploads, self.upload_ids
+        b.shared = self.shared
         b.variables = None if st["variables"] is None else self.var_objs[st["variables"]]
         b.kwargs = {}
         if st["headers"] is not None:
@@ -236,10 +268,61 @@ class SeqBuilt:
         return {"hdrs": [[[str(k), v] for k, v in d.items()] for d in self.hdr_objs],
                 "vars": [[[str(k), to_pv(v, self.upload_ids)] for k, v in d.items()] for d in self.var_objs]}
 
+    def objects(self) -> Dict[str, Any]:
+        """the caller's objects in the wire form of the model's `OHeap` (addresses as fixed at construction)"""
+        return {"hdrs": [[[str(k), v] for k, v in d.items()] for d in self.hdr_objs], "objs": self.enc.encode(),
+                "ups": [[getattr(u, "filename", None), getattr(u, "content_type", None), st] for u, st in zip(self.uploads, stream_ids(self.spec.get("uploads", [])))]}
+
     def snapshot(self) -> Dict[str, Any]:
         """deep, by-value picture of everything the caller handed over (stream positions excluded: reading
         a file object is httpx's business and it rewinds before every send)"""
-        return {**self.heap(), "kw": {k: snap_value(v) for k, v in sorted(self.kw_objs.items())}, "uploads": snap_uploads(self.uploads)}
+        return {**self.heap(), "objs": self.enc.encode(), "kw": {k: snap_value(v) for k, v in sorted(self.kw_objs.items())}, "uploads": snap_uploads(self.uploads)}
+
+
+class ObjEncoder:
+    """the list/dict objects reachable from the caller's variables dicts, BY IDENTITY, in the wire form of the model's
+    `OStore`: address = order of first visit (fixed when the encoder is made), a value is {"ref": address} for a
+    list/dict object and the PV wire form for anything else (a pydantic model is its dump: containers of its own).
+    Re-encoding after a call uses the same addresses, so a changed content AND a changed aliasing structure both show."""
+
+    def __init__(self, roots: List[Dict[str, Any]], upload_ids: Dict[int, int]):
+        self.upload_ids = upload_ids
+        self.addr: Dict[int, int] = {}
+        self.objs: List[Any] = []       # keeps the objects alive: ids stay unique
+        self.roots = [self._visit(r) for r in roots]
+        self.encode()                   # discover everything reachable now
+
+    def _visit(self, o: Any) -> int:
+        if id(o) not in self.addr:
+            self.addr[id(o)] = len(self.objs)
+            self.objs.append(o)
+        return self.addr[id(o)]
+
+    def _val(self, v: Any) -> Dict[str, Any]:
+        if type(v) in (list, dict):
+            return {"ref": self._visit(v)}
+        return to_pv(v, self.upload_ids)
+
+    def encode(self) -> List[Dict[str, Any]]:
+        out: List[Dict[str, Any]] = []
+        i = 0
+        while i < len(self.objs):       # objects discovered on the way are appended and encoded too
+            o = self.objs[i]
+            if type(o) is list:
+                out.append({"t": "list", "v": [self._val(x) for x in o]})
+            else:
+                out.append({"t": "dict", "v": [[str(k), self._val(x)] for k, x in o.items()]})
+            i += 1
+        return out
+
+    def aliased(self) -> int:
+        """how many container objects are referenced from more than one place"""
+        refs: Dict[int, int] = {}
+        for o in self.encode():
+            for x in (o["v"] if o["t"] == "list" else [kv[1] for kv in o["v"]]):
+                if "ref" in x:
+                    refs[x["ref"]] = refs.get(x["ref"], 0) + 1
+        return sum(1 for n in refs.values() if n > 1)
 
 
 def snap_value(v: Any) -> Any:
@@ -264,13 +347,15 @@ def snap_uploads(uploads: List[Any]) -> List[Any]:
 def snap_call(b: "Built") -> str:
     """deep picture of the REAL objects one call is given (variables, every keyword argument, Uploads)"""
     variables = None if b.variables is None else [[str(k), to_pv(v, b.upload_ids)] for k, v in b.variables.items()]
-    return json.dumps({"variables": variables, "kwargs": {k: snap_value(v) for k, v in b.kwargs.items()},
+    objs = ObjEncoder([] if b.variables is None else [b.variables], b.upload_ids).encode()   # contents AND aliasing
+    return json.dumps({"variables": variables, "objs": objs, "kwargs": {k: snap_value(v) for k, v in b.kwargs.items()},
                        "uploads": snap_uploads(b.uploads)}, sort_keys=True, default=repr)
 
 
 def changed_parts(before: Dict[str, Any], after: Dict[str, Any]) -> List[str]:
-    names = {"hdrs": "headers-dict", "vars": "variables-dict", "kw": "keyword-argument-object", "uploads": "upload-object"}
-    return [names[k] for k in ("hdrs", "vars", "kw", "uploads") if json.dumps(before.get(k), sort_keys=True, default=repr) != json.dumps(after.get(k), sort_keys=True, default=repr)]
+    names = {"hdrs": "headers-dict", "vars": "variables-dict", "objs": "list/dict object of the variables (contents or aliasing)",
+             "kw": "keyword-argument-object", "uploads": "upload-object"}
+    return [names[k] for k in ("hdrs", "vars", "objs", "kw", "uploads") if json.dumps(before.get(k), sort_keys=True, default=repr) != json.dumps(after.get(k), sort_keys=True, default=repr)]
 
 
 # --------------------------------------------------------------------------------------------
@@ -570,6 +655,7 @@ class Shape:
         self.model_below_dict = False
         self.upload_in_model_below_dict = False
         self.nonstring_float = False
+        self.dump_shares_containers = False   # third-party assumption of the object-level model, checked on every model seen
         top = {}
         for k, v in (b.variables or {}).items():
             if v is m["UNSET"]:
@@ -585,7 +671,10 @@ class Shape:
             if below_dict and not in_dump:
                 self.model_below_dict = True
                 hidden = True
-            return self._walk(v.model_dump(by_alias=True, exclude_unset=True), path, b, below_dict, True, hidden)
+            dump = v.model_dump(by_alias=True, exclude_unset=True)
+            if not in_dump and container_ids(dump) & container_ids([getattr(v, n, None) for n in type(v).model_fields]):
+                self.dump_shares_containers = True
+            return self._walk(dump, path, b, below_dict, True, hidden)
         if isinstance(v, list):
             return [self._walk(x, path + (i,), b, below_dict, in_dump, hidden) for i, x in enumerate(v)]
         if isinstance(v, dict):
@@ -604,6 +693,21 @@ class Shape:
         if not ok:
             self.unserialisable = True
         return v
+
+
+def container_ids(v: Any, acc: Optional[set] = None) -> set:
+    """ids of the list/dict objects reachable from v (through models' field values too)"""
+    acc = set() if acc is None else acc
+    if type(v) in (list, dict):
+        if id(v) in acc:
+            return acc
+        acc.add(id(v))
+        for x in (v.values() if type(v) is dict else v):
+            container_ids(x, acc)
+    elif isinstance(v, models()["BaseModel"]):
+        for n in type(v).model_fields:
+            container_ids(getattr(v, n, None), acc)
+    return acc
 
 
 def render(path: Tuple[Any, ...]) -> str:
@@ -730,6 +834,7 @@ class Gen:
     def __init__(self, rng: Any, profile: str = "mixed"):
         self.rng = rng
         self.uploads: List[Dict[str, Any]] = []
+        self.shared: List[Dict[str, Any]] = []   # pool of list/dict OBJECTS that may be referenced from several places
         self.profile = profile
 
     def upload_ref(self) -> Dict[str, Any]:
@@ -737,14 +842,39 @@ class Gen:
         if self.uploads and (rng.random() < 0.45 or len(self.uploads) >= 4):
             return {"k": "upload", "u": rng.randrange(len(self.uploads))}
         content = rng.choice([b"", b"abc", b"\x00\xff\r\n--x", b"--boundary\r\n", bytes(rng.randrange(256) for _ in range(rng.randint(1, 40)))])
-        same_as_first = self.uploads and rng.random() < 0.2  # a distinct object with identical attributes
-        src = self.uploads[0] if same_as_first else None
+        if self.uploads and rng.random() < 0.06:
+            # another Upload object around THE SAME file object as an earlier one, under another name (httpx rewinds
+            # a stream before it reads it, so both parts carry the bytes)
+            j = rng.randrange(len(self.uploads))
+            j = self.uploads[j].get("stream_of", j) if self.uploads[j].get("stream_of") is not None else j
+            self.uploads.append({"filename": "alias-%d.dat" % len(self.uploads), "content_type": rng.choice(["text/plain", "application/octet-stream"]),
+                                 "content_b64": self.uploads[j]["content_b64"], "stream_of": j})
+            return {"k": "upload", "u": len(self.uploads) - 1}
+        twin = rng.random() if self.uploads else 1.0
+        # a DISTINCT object that looks like an earlier one: identical attributes and bytes (< 0.15), or the same file
+        # name and content type with different bytes (< 0.3: "photo.jpg picked from two folders")
+        src = rng.choice(self.uploads) if twin < 0.3 else None
+        own_bytes = base64.b64encode(content + b"#%d" % len(self.uploads)).decode() if twin >= 0.15 and src else None
         self.uploads.append({
             "filename": src["filename"] if src else rng.choice(["a.txt", "img.png", "no ext", "f-%d.bin" % len(self.uploads)]),
             "content_type": src["content_type"] if src else rng.choice(["text/plain", "image/png", "application/octet-stream"]),
-            "content_b64": src["content_b64"] if src else base64.b64encode(content).decode(),
+            "content_b64": (own_bytes or src["content_b64"]) if src else base64.b64encode(content).decode(),
         })
         return {"k": "upload", "u": len(self.uploads) - 1}
+
+    def shared_ref(self, depth: int) -> Dict[str, Any]:
+        """a list/dict OBJECT of the pool: an existing one (the same object at one more place) or a new one.  The
+        content of a new one is generated first and may reference earlier pool objects only, so the graph is acyclic."""
+        rng = self.rng
+        if self.shared and (rng.random() < 0.55 or len(self.shared) >= 4):
+            return {"k": "shared", "i": rng.randrange(len(self.shared))}
+        if rng.random() < 0.6:
+            keys = rng.sample(KEYS, rng.randint(1, 3))
+            body: Dict[str, Any] = {"k": "dict", "v": [[k, self.upload_ref() if rng.random() < 0.45 else self.raw(depth + 1, "infield")] for k in keys]}
+        else:
+            body = {"k": "list", "v": [self.upload_ref() if rng.random() < 0.45 else self.raw(depth + 1, "infield") for _ in range(rng.randint(1, 3))]}
+        self.shared.append(body)
+        return {"k": "shared", "i": len(self.shared) - 1}
 
     def scalar(self) -> Dict[str, Any]:
         rng = self.rng
@@ -819,6 +949,8 @@ class Gen:
     def raw(self, depth: int, ctx: str) -> Dict[str, Any]:
         """an untyped value (a hand-built dict / an Any-typed custom scalar): anything may sit anywhere"""
         rng = self.rng
+        if depth <= 4 and self.profile != "noupload" and rng.random() < 0.14:
+            return self.shared_ref(depth)
         r = rng.random()
         if depth > 4 or r < 0.3:
             return self.scalar()
@@ -840,6 +972,8 @@ class Gen:
     def typed(self, depth: int) -> Dict[str, Any]:
         """a value as a generated client method would place it in the variables dict"""
         rng = self.rng
+        if rng.random() < 0.07:
+            return self.shared_ref(depth)    # a list / dict object that is (or may become) referenced elsewhere too
         r = rng.random()
         if r < 0.22:
             return self.scalar()
@@ -891,7 +1025,7 @@ class Gen:
             kwargs.append(["params", {"tenant": rng.choice(["t1", "t 2"])}])
         op = rng.choice(["Q%d" % n, None, "upload_File"])
         return {"query": "query Q%d { x%d }" % (n, rng.randrange(100)), "opName": op, "variables": variables,
-                "headers": self.headers(), "kwargs": kwargs, "uploads": self.uploads}
+                "headers": self.headers(), "kwargs": kwargs, "uploads": self.uploads, "shared": self.shared}
 
 
 def gen_call(rng: Any, n: int) -> Dict[str, Any]:
@@ -920,6 +1054,15 @@ def gen_sequence(rng: Any, n: int) -> Dict[str, Any]:
         if g.profile == "mixed" and rng.random() < 0.5 and not any(k == "file" for k, _ in vs):
             vs.append(["file", g.upload_ref()])
         var_objs.append(vs)
+    if rng.random() < 0.4:
+        # one list/dict object of the pool under a key of one or two of the variables dicts (and possibly under two keys
+        # of the same dict, and once more inside a fresh list)
+        g.profile = "mixed"
+        ref = g.shared_ref(1)
+        for vs in rng.sample(var_objs, min(len(var_objs), rng.randint(1, 2))):
+            for key in rng.sample(["shared_", "sharedAgain"], rng.randint(1, 2)):
+                if not any(k == key for k, _ in vs):
+                    vs.append([key, ref if rng.random() < 0.7 else {"k": "list", "v": [ref, {"k": "none"}]}])
     uniform = rng.random() < 0.5
     cfg0 = rng.randrange(len(CONFIGS))
     params = {"tenant": rng.choice(["t1", "t 2"])}
@@ -936,7 +1079,7 @@ def gen_sequence(rng: Any, n: int) -> Dict[str, Any]:
             "headers": None if rng.random() < 0.12 else rng.randrange(len(hdr_objs)),
             "kwargs": kwargs, "config": cfg0 if rng.random() < 0.4 else rng.randrange(len(CONFIGS)),
         })
-    return {"uniform": uniform, "uploads": g.uploads, "hdr_objs": hdr_objs, "var_objs": var_objs, "steps": steps}
+    return {"uniform": uniform, "uploads": g.uploads, "shared": g.shared, "hdr_objs": hdr_objs, "var_objs": var_objs, "steps": steps}
 
 
 HAND_SEQUENCES: List[Dict[str, Any]] = [
@@ -962,6 +1105,32 @@ HAND_SEQUENCES: List[Dict[str, Any]] = [
 ]
 
 
+HAND_SEQUENCES += [
+    # a retry: the Upload sits in the caller's own nested dict (not top-level, not in a model) and the SAME variables are sent twice,
+    # then once more through another client
+    {"uniform": True, "uploads": [{"filename": "notes.txt", "content_type": "text/plain", "content_b64": "YXR0YWNobWVudC1ieXRlcw=="}], "shared": [],
+     "hdr_objs": [[]],
+     "var_objs": [[["input", {"k": "dict", "v": [["title", {"k": "str", "v": "hello"}],
+                                                ["attachment", {"k": "dict", "v": [["file", {"k": "upload", "u": 0}], ["tags", {"k": "list", "v": [{"k": "str", "v": "a"}]}]]}]]}]]],
+     "steps": [{"query": "mutation Send { send }", "opName": "Send", "variables": 0, "headers": None, "kwargs": [], "config": 0},
+               {"query": "mutation Send { send }", "opName": "Send", "variables": 0, "headers": None, "kwargs": [], "config": 0},
+               {"query": "mutation Send { send }", "opName": "Send", "variables": 0, "headers": 0, "kwargs": [], "config": 3}]},
+    # ONE dict object referenced from two places of one variables dict (directly and inside a list), from a second
+    # variables dict and from a list object that is itself shared; two distinct Uploads with equal name and type
+    {"uniform": False,
+     "uploads": [{"filename": "photo.jpg", "content_type": "image/jpeg", "content_b64": "ZnJvbnQ="}, {"filename": "photo.jpg", "content_type": "image/jpeg", "content_b64": "YmFjay1zaWRl"}],
+     "shared": [{"k": "dict", "v": [["file", {"k": "upload", "u": 0}], ["caption", {"k": "str", "v": "same attachment"}]]},
+                {"k": "list", "v": [{"k": "shared", "i": 0}, {"k": "upload", "u": 1}]}],
+     "hdr_objs": [[["Authorization", "Bearer t"]]],
+     "var_objs": [[["input", {"k": "dict", "v": [["primary", {"k": "shared", "i": 0}], ["copies", {"k": "list", "v": [{"k": "shared", "i": 0}]}]]}]],
+                  [["again", {"k": "shared", "i": 0}], ["all", {"k": "shared", "i": 1}], ["all2", {"k": "shared", "i": 1}]]],
+     "steps": [{"query": "mutation A { a }", "opName": "A", "variables": 0, "headers": 0, "kwargs": [], "config": 0},
+               {"query": "mutation B { b }", "opName": "B", "variables": 1, "headers": 0, "kwargs": [], "config": 5},
+               {"query": "mutation A { a }", "opName": "A", "variables": 0, "headers": None, "kwargs": [], "config": 1},
+               {"query": "mutation B { b }", "opName": "B", "variables": 1, "headers": 0, "kwargs": [], "config": 2}]},
+]
+
+
 HAND_CASES: List[Dict[str, Any]] = [
     {"query": "query A { a }", "opName": "A", "variables": None, "headers": None, "kwargs": [], "uploads": []},
     {"query": "query A { a }", "opName": None, "variables": [], "headers": [["Content-Type", "application/graphql-response+json"]], "kwargs": [["timeout", 3]], "uploads": []},
@@ -976,6 +1145,19 @@ HAND_CASES: List[Dict[str, Any]] = [
                  {"filename": "p.png", "content_type": "image/png", "content_b64": "AP8NCi0teA=="}]},
     {"query": "query A { a }", "opName": "A", "variables": [["where", {"k": "dict", "v": [["m", {"k": "model", "cls": "Inner", "fields": [["note", {"k": "str", "v": "n"}]]}]]}]],
      "headers": None, "kwargs": [], "uploads": []},
+    # two DIFFERENT files that share file name and content type (one in a list of a model, one more reference to the first)
+    {"query": "mutation Album { album }", "opName": "Album", "headers": None, "kwargs": [],
+     "variables": [["input", {"k": "model", "cls": "Outer", "fields": [["id_", {"k": "str", "v": "holiday"}], ["files", {"k": "list", "v": [{"k": "upload", "u": 0}, {"k": "upload", "u": 1}]}]]}],
+                   ["cover", {"k": "upload", "u": 0}]],
+     "uploads": [{"filename": "photo.jpg", "content_type": "image/jpeg", "content_b64": "ZnJvbnQtc2lkZS1ieXRlcw=="},
+                 {"filename": "photo.jpg", "content_type": "image/jpeg", "content_b64": "YmFjay1zaWRlLWJ5dGVzLWFyZS1kaWZmZXJlbnQ="}]},
+    # one dict object at two places of ONE call, and the same list object under two variables
+    {"query": "mutation Send { send }", "opName": "Send", "headers": None, "kwargs": [],
+     "shared": [{"k": "dict", "v": [["file", {"k": "upload", "u": 0}], ["caption", {"k": "str", "v": "same attachment"}]]},
+                {"k": "list", "v": [{"k": "upload", "u": 0}, {"k": "shared", "i": 0}]}],
+     "variables": [["input", {"k": "dict", "v": [["primary", {"k": "shared", "i": 0}], ["copies", {"k": "list", "v": [{"k": "shared", "i": 0}]}]]}],
+                   ["l1", {"k": "shared", "i": 1}], ["l2", {"k": "shared", "i": 1}]],
+     "uploads": [{"filename": "notes.txt", "content_type": "text/plain", "content_b64": "YXR0YWNobWVudC1ieXRlcw=="}]},
 ]
 
 
@@ -985,10 +1167,17 @@ HAND_CASES: List[Dict[str, Any]] = [
 
 
 def spec_stats(spec: Dict[str, Any], res: Result) -> None:
+    pool = spec.get("shared", [])
+    refs: Dict[int, int] = {}
+
     def walk(s: Dict[str, Any], depth: int) -> int:
         res.count("node:" + s["k"])
         d = depth
-        if s["k"] == "list":
+        if s["k"] == "shared":
+            refs[s["i"]] = refs.get(s["i"], 0) + 1
+            if refs[s["i"]] == 1:     # the object's content is counted once
+                d = max(d, walk(pool[s["i"]], depth))
+        elif s["k"] == "list":
             for x in s["v"]:
                 d = max(d, walk(x, depth + 1))
         elif s["k"] == "dict":
@@ -1007,6 +1196,8 @@ def spec_stats(spec: Dict[str, Any], res: Result) -> None:
     else:
         depth = max(walk(x, 1) for _, x in v)
         res.count("depth:%d" % min(depth, 6))
+        if any(n > 1 for n in refs.values()):
+            res.count("aliasing:one-list/dict-object-at-several-places-of-one-call")
         if all(x["k"] == "unset" for _, x in v):
             res.count("variables:all-UNSET")
 
@@ -1035,6 +1226,16 @@ def judge(ctx: Ctx, st: Optional[LeanStatus], specs: List[Dict[str, Any]], res: 
         valid = py_valid(b0, shape)
         in_scope = valid
         spec_stats(spec, res)
+        if shape.dump_shares_containers:
+            res.mismatches.append(Mismatch("pydantic-model_dump-returns-containers-of-its-own", {"call": spec}, "a list/dict of the dump IS an object the model holds", "fresh containers"))
+        ups_here = sorted({u for _, u in shape.upload_paths})
+        specs_u = spec.get("uploads", [])
+        if any(a < b_ and (specs_u[a]["filename"], specs_u[a]["content_type"]) == (specs_u[b_]["filename"], specs_u[b_]["content_type"])
+               for a in ups_here for b_ in ups_here):
+            res.count("uploads:two-distinct-objects-with-equal-name-and-type-in-one-call")
+        streams = [specs_u[u].get("stream_of", u) if specs_u[u].get("stream_of") is not None else u for u in ups_here]
+        if len(set(streams)) < len(streams):
+            res.count("uploads:two-distinct-objects-around-one-file-object-in-one-call")
         res.count("uploads:distinct=%d" % min(len({u for _, u in shape.upload_paths}), 4))
         if len(shape.upload_paths) > len({u for _, u in shape.upload_paths}):
             res.count("uploads:one-object-at-several-paths")
@@ -1108,6 +1309,18 @@ def seq_model_line(sb: SeqBuilt, cfgs: List[int]) -> Dict[str, Any]:
     return {"op": "sequence", **sb.heap(), "steps": steps}
 
 
+def seq_model_line_objects(sb: SeqBuilt, cfgs: List[int]) -> Dict[str, Any]:
+    """the same sequence for the object-level model: `variables` = address of the dict object, nested containers by reference"""
+    steps = []
+    for st, cfg in zip(sb.spec["steps"], cfgs):
+        kind, tracer = CONFIGS[cfg]
+        steps.append({"kind": kind, "tracer": tracer is not None, "url": URL, "query": st["query"], "opName": st["opName"],
+                      "variables": None if st["variables"] is None else sb.enc.roots[st["variables"]], "headers": st["headers"],
+                      "kwargs": [[k, wire.enc(v)] for k, v in st.get("kwargs", [])]})
+    heap = sb.objects()
+    return {"op": "sequenceO", **heap, "fuel": len(heap["objs"]) + 2, "steps": steps}
+
+
 def seq_passes(spec: Dict[str, Any]) -> List[List[int]]:
     n = len(spec["steps"])
     if spec.get("uniform"):
@@ -1126,7 +1339,8 @@ def judge_sequences(ctx: Ctx, st: Optional[LeanStatus], seqs: List[Dict[str, Any
         lines = []
         for sb in pristine:
             offsets.append(len(lines))
-            lines += [seq_model_line(sb, cfgs) for cfgs in seq_passes(sb.spec)]
+            for cfgs in seq_passes(sb.spec):       # two lines per pass: dicts by value-level heap, and on objects
+                lines += [seq_model_line(sb, cfgs), seq_model_line_objects(sb, cfgs)]
         model_out = common.run_driver(ctx.prop, lines)
     for n, spec in enumerate(seqs):
         if flooded(res):
@@ -1153,6 +1367,11 @@ def judge_sequences(ctx: Ctx, st: Optional[LeanStatus], seqs: List[Dict[str, Any
         for lab in labels:
             res.count(lab)   # per sequence: the measured probability of the shape is count / #sequences
         res.count("sequence:count")
+        if sb0.enc.aliased():
+            res.count("sequence:list/dict-object-referenced-from-several-places")
+        if any(type(x) in (list, dict) and any(isinstance(y, models()["Upload"]) for y in (x.values() if type(x) is dict else x))
+               for d in sb0.var_objs for x in d.values()) and len(set(r for r in (stp["variables"] for stp in spec["steps"]) if r is not None)) < len([r for r in (stp["variables"] for stp in spec["steps"]) if r is not None]):
+            res.count("sequence:Upload-in-a-nested-container-of-a-variables-dict-sent-twice")
         ups = [{u for _, u in sh.upload_paths} for sh in shapes]
         if any(ups[a] & ups[b_] for a in range(nsteps) for b_ in range(a + 1, nsteps)):
             res.count("sequence:one-Upload-sent-by-several-calls")
@@ -1162,7 +1381,8 @@ def judge_sequences(ctx: Ctx, st: Optional[LeanStatus], seqs: List[Dict[str, Any
             base = sb.snapshot()
             so_far_in_scope = True
             reported_args = False
-            mo_seq = model_out[offsets[n] + pn] if model_out is not None else None
+            mo_seq = model_out[offsets[n] + 2 * pn] if model_out is not None else None
+            mo_obj = model_out[offsets[n] + 2 * pn + 1] if model_out is not None else None
             views = []
             for k, cfg in enumerate(cfgs):
                 kind, tracer = CONFIGS[cfg]
@@ -1206,12 +1426,30 @@ def judge_sequences(ctx: Ctx, st: Optional[LeanStatus], seqs: List[Dict[str, Any
                         res.mismatches.append(Mismatch("client-frame", case, ir.get("client_unchanged"), mo["client_unchanged"]))
                     real_heap = {"hdrs": after["hdrs"], "vars": after["vars"]}
                     if not common.same_json(real_heap, mo["heap"]):
-                        res.mismatches.append(Mismatch("argument-heap-after-call", case, real_heap["hdrs"], mo["heap"]["hdrs"]))
+                        res.mismatches.append(Mismatch("argument-heap-after-call", case, real_heap, mo["heap"]))
                     for t in (TRIG_F1, TRIG_F2):
                         if mo.get(t) != trigs[k][t]:
                             res.mismatches.append(Mismatch("trigger-agreement:" + t, case, trigs[k][t], mo.get(t)))
                     if mo.get("valid") != valids[k]:
                         res.mismatches.append(Mismatch("validity-agreement", case, valids[k], mo.get("valid")))
+                    if mo_obj is not None:
+                        ob = mo_obj["steps"][k]
+                        if ob.get("request") is None:
+                            res.mismatches.append(Mismatch("objects-sequence-well-formed", case, ir.get("r"), "illFormed"))
+                        else:
+                            ov = model_view(ob["request"], b)
+                            if ov.get("r") == "multipart":   # the file parts as the object-level model builds them
+                                specs_u = b.spec.get("uploads", [])
+                                ov["files"] = [[nm, t[0], t[2], specs_u[t[1]]["content_b64"]] if t is not None else [nm, None, None, None]
+                                               for nm, t in ob["files"]]
+                            if not views_equal(iv, ov):
+                                region = next((t for t in (TRIG_F2, TRIG_F1) if trigs[k][t]), None)
+                                res.mismatches.append(Mismatch("execute-on-objects", case, iv, ov, trigger=region if (valids[k] and sig is None) else None))
+                            real_objs = {"hdrs": after["hdrs"], "objs": after["objs"]}
+                            if not common.same_json(real_objs, ob["heap"]):
+                                res.mismatches.append(Mismatch("objects-after-call", case, real_objs["objs"], ob["heap"]["objs"]))
+                            if ob.get("valid") != valids[k] or any(ob.get(t) != trigs[k][t] for t in (TRIG_F1, TRIG_F2)):
+                                res.mismatches.append(Mismatch("objects-deref-agreement", case, [valids[k], trigs[k]], {x: ob.get(x) for x in ("valid", TRIG_F1, TRIG_F2)}))
                     if k == nsteps - 1:
                         whole = [model_view(r, sb.step(j)) if r is not None else None for j, r in enumerate(mo_seq["requests"])]
                         stepwise = [model_view(x["request"], sb.step(j)) if x.get("request") is not None else None for j, x in enumerate(mo_seq["steps"])]
@@ -1368,6 +1606,43 @@ def concurrency(ctx: Ctx, res: Result, rounds: int, width: int) -> None:
 # --------------------------------------------------------------------------------------------
 
 
+def upload_eq_observations(ctx: Ctx, st: Optional[LeanStatus], res: Result) -> None:
+    """what `obj in files_list` / `files_list.index(obj)` / `==` answer on REAL Upload objects — the same object, two
+    objects with identical attributes (sharing one stream or not), equal name and type but other bytes, different —
+    against the model's `uploadEq` (identity)"""
+    Upload = models()["Upload"]
+    one = io.BytesIO(b"front")
+    ups = [Upload("photo.jpg", io.BytesIO(b"front"), "image/jpeg"), Upload("photo.jpg", io.BytesIO(b"back-side"), "image/jpeg"),
+           Upload("photo.jpg", io.BytesIO(b"front"), "image/jpeg"), Upload("photo.jpg", one, "image/jpeg"), Upload("photo.jpg", one, "image/jpeg"),
+           Upload("a.txt", io.BytesIO(b"front"), "text/plain"), Upload("photo.jpg", io.BytesIO(b"front"), "image/png")]
+    labels = ["photo/front", "photo/back", "photo/front(2nd object)", "photo/stream S", "photo/stream S (2nd object)", "a.txt", "photo as png"]
+    pairs = [(a, b_) for a in range(len(ups)) for b_ in range(len(ups))]
+    model_out = None
+    if st is not None and st.driver_ok:
+        model_out = common.run_driver(ctx.prop, [{"op": "uploadEq", "a": a, "b": b_} for a, b_ in pairs])
+    for n, (a, b_) in enumerate(pairs):
+        case = {"files_list": [labels[a]], "obj": labels[b_], "same_object": a == b_}
+        try:
+            real_in = ups[b_] in [ups[a]]
+            try:
+                [ups[a]].index(ups[b_])
+                real_index = True
+            except ValueError:
+                real_index = False
+            real = {"in": bool(real_in), "index": real_index, "eq": bool(ups[a] == ups[b_])}
+        except Exception as e:  # noqa: BLE001 - a comparison method that raises
+            real = {"exc": f"{type(e).__name__}: {e}"}
+        res.count("upload-eq:pairs")
+        res.evaluations += 1
+        want = a == b_   # the property: "each DISTINCT Upload is sent once" — distinct means another object
+        if real != {"in": want, "index": want, "eq": want}:
+            res.count("upload-eq:real-comparison-is-not-identity")
+        if model_out is not None:
+            mv = bool(model_out[n]["eq"])
+            if real != {"in": mv, "index": mv, "eq": mv}:
+                res.mismatches.append(Mismatch("upload-eq", case, real, mv))
+
+
 def fingerprint_items() -> List[Tuple[str, Optional[str]]]:
     items: List[Tuple[str, Optional[str]]] = []
     for kind, rel in clients.REL.items():
@@ -1418,7 +1693,8 @@ def run(ctx: Ctx, st: Optional[LeanStatus]) -> Result:
     res = Result()
     res.rule = ("seeded call specs (type-directed variables trees x caller headers x timeout/params) executed by the six real "
                 "client configurations, plus seeded SEQUENCES of 2-5 calls sharing their argument objects (headers dict, variables dict, "
-                "Uploads, params dict; on one configuration x6 or hopping between configurations); a case is non-trivial when its "
+                "Uploads, params dict, a pool of shared list/dict objects referenced from several places; on one configuration x6 or hopping between "
+                "configurations; each also run through the object-level model on the identity-encoded real objects); a case is non-trivial when its "
                 "variables are non-empty (every sequence is); distinct = distinct call specs / sequence specs")
     res.extra["fingerprints"] = common.fingerprints(ctx, fingerprint_items())
     div = clients.four_way(SHARED_METHODS)
@@ -1426,6 +1702,7 @@ def run(ctx: Ctx, st: Optional[LeanStatus]) -> Result:
     if div:
         ctx.boost = True
         ctx.log(f"shared request methods are no longer textually identical in the four clients: {div}")
+    upload_eq_observations(ctx, st, res)
     rig = Rig()
     try:
         replay_witnesses(ctx, res, rig)
@@ -1437,7 +1714,7 @@ def run(ctx: Ctx, st: Optional[LeanStatus]) -> Result:
         for lo in range(0, len(specs), 2000):
             judge(ctx, st, specs[lo: lo + 2000], res, rig)
         srng = ctx.sub_rng("sequences")
-        seqs = [gen_sequence(srng, n) for n in range(ctx.budget(500, 6000))]
+        seqs = [gen_sequence(srng, n) for n in range(ctx.budget(500, 5000))]
         for lo in range(0, len(seqs), 1000):
             judge_sequences(ctx, st, seqs[lo: lo + 1000], res, rig)
     finally:
@@ -1445,7 +1722,7 @@ def run(ctx: Ctx, st: Optional[LeanStatus]) -> Result:
     concurrency(ctx, res, rounds=ctx.budget(6, 40), width=6)
     res.oracle_only += [
         "httpx: header normalisation, merge of client-level and per-request headers, multipart encoding (boundary, part order, file part headers) — observed on the captured request, not modelled",
-        "pydantic: model_dump(by_alias=True, exclude_unset=True) and to_jsonable_python results are inputs of the model, computed with the real library",
+        "pydantic: model_dump(by_alias=True, exclude_unset=True) and to_jsonable_python results are inputs of the model, computed with the real library; that model_dump returns list/dict objects of its own (none shared with what the model holds) is checked on every model the run builds",
         "concurrent calls on one client (asyncio.gather / threads) are exercised on the real clients; the Lean interleaving theorem is about the model's two-step call machine",
         "what httpx does with the objects it is handed (copies the headers mapping, reads and rewinds the Upload streams) is observed on the real objects after every call, not modelled; concurrent calls never share an Upload stream (two sends reading one file object race inside httpx)",
     ]
@@ -1491,7 +1768,7 @@ def replay_sequence(spec: Dict[str, Any], cfgs: Optional[List[int]]) -> int:
                 sig = oracle(b, shapes[k], ir) if py_valid(b, shapes[k]) else None
                 changed = changed_parts(base, sb.snapshot())
                 if changed:
-                    sig = (sig + " + " if sig else "") + "caller-arguments-modified: " + ", ".join(changed) + " " + json.dumps(sb.snapshot()["hdrs"])[:200]
+                    sig = (sig + " + " if sig else "") + "caller-arguments-modified: " + ", ".join(changed) + " " + json.dumps({k: sb.snapshot()[k] for k in ("hdrs", "objs")})[:400]
                 print("call", k, kind, tracer, json.dumps(impl_summary(ir), default=repr)[:400], "->", sig or "ok")
                 rc = rc or (1 if sig else 0)
     finally:
